@@ -525,7 +525,10 @@ func (c *CheckCtx) finish(pd *propDef) int {
 			if !ok {
 				c.harnessNondet++
 				c.capped = true
-				c.notes = append(c.notes, fmt.Sprintf("signature %q did not reproduce 5/5 on replay: treated as harness nondeterminism", s))
+				// keep the witness for analysis (never reported as a violation)
+				urf := &ReplayFile{Property: c.Prop, Signature: "UNCONFIRMED " + s, Message: v.Msg, ScnName: v.Scn, Choices: v.Chosen, Scenario: scn}
+				up := c.writeReplay(urf)
+				c.notes = append(c.notes, fmt.Sprintf("signature %q (scenario %s, %d choices) did not reproduce 5/5 on replay: treated as harness nondeterminism; witness kept at %s", s, v.Scn, len(v.Chosen), up))
 				continue
 			}
 			res = r
